@@ -11,9 +11,9 @@
     * the two call sites that were still open before the last two `fix:` commits are kept as
       `legacy_*_witness`.
 -/
-import PV.Model.PKeyFile
+import PV.Model.PKeyText
 namespace PV.Props.C37
-open PV PV.Wire PV.KeyUtf8 PV.PKeyFile
+open PV PV.Wire PV.KeyUtf8 PV.PKeyFile PV.PKeyText
 
 /-! ## small facts about the building blocks -/
 
@@ -377,6 +377,23 @@ private theorem pemBody_err (P : Prims) (S : PrimSpec P) (procType dekInfo : Opt
       | (rw [pkcs7_err h1] at h2; cases h2)
       | (simp at h1; subst h1; rename_i he'; rw [S.decrypt_cls _ _ _ _ _ _ he'] at h2; cases h2))
 
+private theorem fromDer_err (P : Prims) (S : PrimSpec P) (k : PKeyFile.Kind) (der : Bytes) (c : Cls)
+    (h : fromDer P k der = .error c) : c.isSSH = true := by
+  unfold fromDer at h
+  split at h
+  · next c' hc =>
+    split at h
+    · simp at h; subst h; rfl
+    · next hn =>
+      rcases S.der_cls _ _ hc with h1 | h1 | h1
+      · exact absurd (Or.inl h1) hn
+      · exact absurd (Or.inr (Or.inl h1)) hn
+      · exact absurd (Or.inr (Or.inr (Or.inl h1))) hn
+  · cases k <;> simp only at h
+    · split at h <;> simp at h; subst h; rfl
+    · split at h <;> simp at h; subst h; rfl
+    · simp at h; subst h; rfl
+
 /-- the PEM / DER route meets the target in full -/
 theorem pem_outcome (P : Prims) (S : PrimSpec P) (k : PKeyFile.Kind) (procType dekInfo : Option Bytes)
     (body : Bytes) (pw : Option Bytes) (c : Cls)
@@ -384,25 +401,97 @@ theorem pem_outcome (P : Prims) (S : PrimSpec P) (k : PKeyFile.Kind) (procType d
   unfold loadPem at h
   split at h
   · next e he => simp at h; subst h; exact pemBody_err P S _ _ _ _ _ he
-  · next der _ =>
-    unfold fromDer at h
-    split at h
-    · next c' hc =>
-      split at h
-      · simp at h; subst h; rfl
-      · next hn =>
-        rcases S.der_cls _ _ hc with h1 | h1 | h1
-        · exact absurd (Or.inl h1) hn
-        · exact absurd (Or.inr (Or.inl h1)) hn
-        · exact absurd (Or.inr (Or.inr (Or.inl h1))) hn
-    · cases k <;> simp only at h
-      · split at h <;> simp at h; subst h; rfl
-      · split at h <;> simp at h; subst h; rfl
-      · simp at h; subst h; rfl
+  · exact fromDer_err P S _ _ _ h
 
 /-- non-vacuity: an unencrypted PEM body that the toy `load_der` classifies as an RSA key loads,
     the same body under an EC armor is refused with SSHException -/
 example : loadPem toyP .rsa none none [1, 2, 3, 4] none = .ok () ∧
     loadPem toyP .ec none none [1, 2, 3, 4] none = .error .sshException := by decide +kernel
+
+/-! ## the text level: `_read_private_key` on the lines of the file -/
+
+private theorem b64ssh_err (T : TextPrims) (S : TextSpec T) {t : Line} {c : Cls}
+    (h : b64ssh T t = .error c) : c = .sshException := by
+  unfold b64ssh at h
+  split at h
+  · simp at h
+  · next c' hc =>
+    have := S.b64_cls _ _ hc
+    subst this
+    simp at h; exact h.symm
+
+private theorem readPem_err (T : TextPrims) (S : TextSpec T) (lines : List Line) (e : Nat) (pw : Option Bytes)
+    (c : Cls) (h : readPem T lines e pw = .error c) : c.isSSH = true := by
+  unfold readPem at h
+  simp only at h
+  split at h
+  · next c' hc => simp at h; subst h; rw [b64ssh_err T S hc]; rfl
+  · exact pemBody_err T.toPrims S.toPrimSpec _ _ _ _ _ h
+
+private theorem readKey_err (T : TextPrims) (S : TextSpec T) (tag : Tag) (lines : List Line) (pw : Option Bytes)
+    (c : Cls) (h : readKey T tag lines pw = .error c) : c.isSSH = true := by
+  unfold readKey at h
+  simp only at h
+  split at h
+  · simp at h; subst h; rfl
+  · split at h
+    · simp at h; subst h; rfl
+    · split at h
+      · simp at h; subst h; rfl
+      · split at h
+        · split at h
+          · next c' hc => simp at h; subst h; exact readPem_err T S _ _ _ _ hc
+          · simp at h
+        · split at h
+          · split at h
+            · next c' hc => simp at h; subst h; rw [b64ssh_err T S hc]; rfl
+            · split at h
+              · next c' hc => simp at h; subst h; exact readOpenssh_outcome T.toPrims S.toPrimSpec _ _ _ hc
+              · simp at h
+          · simp at h; subst h; rfl
+
+/-- FULL STATEMENT at the level of the file's lines: for every list of lines, every class, every
+    passphrase and every behaviour of base64 / bcrypt / the ciphers / the key constructors allowed by
+    `TextSpec`, `Class.from_private_key` ends in ok, SSHException or PasswordRequiredException -/
+theorem text_outcome (T : TextPrims) (S : TextSpec T) (k : PKeyFile.Kind) (lines : List Line) (pw : Option Bytes)
+    (c : Cls) (h : loadText T k lines pw = .error c) : c.isSSH = true := by
+  unfold loadText at h
+  cases k <;> simp only at h
+  · split at h
+    · next c' hc => simp at h; subst h; exact readKey_err T S _ _ _ _ hc
+    · split at h
+      · unfold rsaFromKeydata at h; rw [catchAll_err h]; rfl
+      · exact fromDer_err _ S.toPrimSpec _ _ _ h
+  · split at h
+    · next c' hc => simp at h; subst h; exact readKey_err T S _ _ _ _ hc
+    · split at h
+      · unfold ecFromKeydata at h; rw [catchAll_err h]; rfl
+      · exact fromDer_err _ S.toPrimSpec _ _ _ h
+  · split at h
+    · next c' hc => simp at h; subst h; exact readKey_err T S _ _ _ _ hc
+    · split at h
+      · next c' hc => simp at h; subst h; exact ed_outcome _ S.toPrimSpec _ _ _ hc
+      · simp at h
+
+/-- toy text primitives: base64 is "drop everything that is not a letter A–P, pair up as nibbles" -/
+def toyT : TextPrims where
+  toPrims := toyP
+  b64 := fun t =>
+    let ds := t.filter (fun c => 65 ≤ c ∧ c ≤ 80)
+    if ds.length % 2 = 1 then .error .binasciiError
+    else .ok ((List.range (ds.length / 2)).map fun i => UInt8.ofNat ((ds.getD (2 * i) 65 - 65) * 16 + (ds.getD (2 * i + 1) 65 - 65)))
+
+theorem toyT_spec : TextSpec toyT where
+  toPrimSpec := toyP_spec
+  b64_cls := by intro t c h; simp only [toyT] at h; split at h <;> simp at h; exact h.symm
+
+/-- non-vacuity: a three-line RSA-armored file whose body the toy `load_der` calls an RSA key loads;
+    read as an EC key it is refused; without the END line the last line is dropped and it still loads -/
+example :
+    loadText toyT .rsa [dashes ++ wBegin ++ [32] ++ Tag.rsa.text ++ PKeyText.tail ++ [10], [65, 66, 65, 67, 65, 68, 65, 69, 10],
+      dashes ++ wEnd ++ [32] ++ Tag.rsa.text ++ PKeyText.tail ++ [10]] none = .ok () ∧
+    loadText toyT .ec [dashes ++ wBegin ++ [32] ++ Tag.rsa.text ++ PKeyText.tail ++ [10], [65, 66, 65, 67, 65, 68, 65, 69, 10],
+      dashes ++ wEnd ++ [32] ++ Tag.rsa.text ++ PKeyText.tail ++ [10]] none = .error .sshException := by
+  decide +kernel
 
 end PV.Props.C37
